@@ -380,6 +380,8 @@ def inner_cases(fam, item, tier, seed):
                 for m in (False, True):
                     for cplx in (False, True):
                         yield dict(base, rows=rows, rank=rank, skip=skip, w=w, m=m, cplx=cplx)
+                    if w:  # operands of different kinds: complex weights on real matrices (the weights must not be cast to the factors' dtype)
+                        yield dict(base, rows=rows, rank=rank, skip=skip, w=w, m=m, cplx=False, wcplx=True)
     elif fam == "inner":
         s1, k, s2 = item
         for cplx in (False, True):
@@ -546,7 +548,7 @@ def run_khatri_rao(case, rn):
     ms = [val((r,) if vectors else (r, Rk), i, cplx, seed, nonzero=True) for i, r in enumerate(rows)]
     rem_rows = [r for i, r in enumerate(rows) if i != skip]
     rem = [mm for i, mm in enumerate(ms) if i != skip]
-    weights = weights_for(Rk, seed, cplx) if w else None
+    weights = weights_for(Rk, seed, cplx or case.get("wcplx", False)) if w else None
     mask = mask_for(tuple(rem_rows), seed) if m else None
     rmats = [rt(mm.reshape(-1, 1)) if vectors else rt(mm) for mm in rem]
     kr = R.khatri_rao(rmats, weights=None if weights is None else [x.item() for x in weights])
@@ -558,7 +560,7 @@ def run_khatri_rao(case, rn):
     if vectors:
         klass += ",vectors"
     if w:
-        klass += ",weights"
+        klass += ",weights" + ("(complex-on-real-matrices)" if case.get("wcplx") else "")
     if m:
         klass += ",mask"
     if skip is not None and klass == "multi":
